@@ -1578,6 +1578,17 @@ where
         self.generation.fetch_add(1, Ordering::Relaxed);
     }
 
+    /// Continues the generation sequence of a data structure that this one replaces.
+    ///
+    /// A freshly built `Tds` starts counting at zero. When it is moved into the place of an older
+    /// one (initial-simplex bootstrap, heuristic rebuild), anything keyed on the old generation
+    /// (e.g. a `ConvexHull` snapshot) must still see a change, so the counter is advanced past
+    /// the value the replaced structure had reached.
+    pub(crate) fn continue_generation_after(&self, previous: u64) {
+        self.generation
+            .fetch_max(previous.saturating_add(1), Ordering::Relaxed);
+    }
+
     /// Gets the current generation value.
     ///
     /// This can be used by external code to detect when the triangulation has changed.
